@@ -47,6 +47,12 @@ def cast_policy(site, fx):
                 if expr is None:
                     return False
                 ee = FL.peel(expr)
+                # bound by a tuple pattern over a tuple of line fields: `match (lm.a, lm.b) { (Some(a), Some(b)) => .. }`
+                pth = list(path)
+                while ee.get("k") == "Tuple" and pth and pth[0][0] in ("tuple", "Tuple", "leaf", "Leaf") and str(pth[0][1]).isdigit() \
+                        and int(pth[0][1]) < len(ee["fields"]):
+                    ee = FL.peel(ee["fields"][int(pth[0][1])])
+                    pth = pth[1:]
                 if ee.get("k") == "Field" and "LineMapping" in ee.get("base_ty", ""):
                     continue
                 if "LineMapping" in (ee.get("ty") or ""):
